@@ -161,6 +161,7 @@ pub fn run_all(ctx: &mut Ctx, stream: &str) {
 		Vec<[u64; 128]>, Vec<[u8; 64]>, VecDeque<[u32; 256]>, Vec<(u128, [u64; 30])>, Option<Vec<[u16; 300]>>,
 		TransTagged, Box<TransTagged>, [TransTagged; 2], Rc<TransTagged>, Vec<Arc<TransTagged>>, TransTaggedAs, Box<TransTaggedAs>, [TransTaggedAs; 3],
 		TransSkipPayload, Box<TransSkipPayload>, [TransSkipPayload; 2], (Box<TransSkipPayload>, u8),
+		Box<Box<Box<u8>>>, Rc<Arc<Box<Box<u16>>>>, Arc<Box<Rc<bool>>>, Option<Box<Box<Box<Marker>>>>, (Box<Rc<Box<u8>>>, Box<u8>),
 		TransMarker, Box<TransMarker>, [TransMarker; 2], Rc<TransMarker>, Vec<Box<TransMarker>>, (Box<TransMarker>, u8),
 		TransMarkerVec, Box<TransMarkerVec>, Arc<TransMarkerVec>, [TransMarkerVec; 2],
 		MelDup, Vec<MelDup>, Option<MelDup>, ConstDisc, Vec<ConstDisc>, (ConstDisc, u8), [ConstDisc; 3], BTreeSet<ConstDisc>, MidSkip, Box<MidSkip>, Vec<MidSkip>, SkipOrders, Vec<SkipOrders>, Option<SkipOrders>,
@@ -183,6 +184,7 @@ pub fn run_all(ctx: &mut Ctx, stream: &str) {
 	if std::env::var("VERIF_NO_CROSS").is_err() {
 		run_random(ctx, stream, f);
 	}
+	zerow!(ctx, stream, f; Box<Box<()>>, Rc<Box<Arc<()>>>, Vec<Box<Box<()>>>, (Box<Box<()>>, Box<()>),);
 	zerow!(ctx, stream, f; Vec<()>, VecDeque<()>, LinkedList<()>, Vec<UnitStruct>, Vec<PhantomData<u8>>, BTreeSet<()>,
 		Option<Vec<()>>, [(); 5], [UnitStruct; 3],
 		Vec<Box<()>>, Vec<AllSkipped>, VecDeque<Rc<()>>, (Vec<Box<()>>, u8, bool), BinaryHeap<Box<()>>, Vec<Arc<[u32; 0]>>,
